@@ -355,6 +355,14 @@ class GraphDriver:
             got = G.get_attacker_by_id(i)
             if got is not a_by_id.get(i):
                 bad.append({'lookup': 'attacker', 'key': i})
+        # the predicates the queries and analysers are built on agree with the lists (checked after the lists themselves
+        # matched the specification's compBy relation)
+        for n in G.nodes:
+            if n.is_compromised() != (len(n.compromised_by) > 0):
+                bad.append({'predicate': 'is_compromised', 'node': n.full_name})
+            for a in G.attackers:
+                if n.is_compromised_by(a) != any(x is a for x in n.compromised_by):
+                    bad.append({'predicate': 'is_compromised_by', 'node': n.full_name, 'attacker': a.name})
         return bad
 
 
